@@ -43,13 +43,26 @@
 (*           post-condition "one POSITIVE constant per RDM" has no         *)
 (*           exception for them.                                           *)
 (*                                                                         *)
+(*  partials from_partials as an embedding of token-valued partial RDMs:   *)
+(*           every partial RDM lists its patterns in ITS OWN ORDER (any    *)
+(*           arrangement of >= 2 conditions), the combined list is given   *)
+(*           (any catalogue permutation) or is the union in order of first *)
+(*           appearance.  Entry (p,q) of the combined RDM r holds the      *)
+(*           dissimilarity of the condition pair {list[p], list[q]} of     *)
+(*           partial r, or is missing when one of them is not in r -       *)
+(*           whatever the orders are (PartialsAssoc: every value names the *)
+(*           pair it sits at).                                             *)
+(* rescale also carries a per-RDM decimal exponent (the unit the RDM is    *)
+(* measured in: 1e-13, 1e-10 of the others, 1e+8): proportionality and     *)
+(* hence every post-condition is independent of the units.                 *)
+(*                                                                         *)
 (* The comparison measures themselves are NOT repeated here: they are the  *)
 (* operators of Compare.tla (property C03), instantiated below.            *)
 (***************************************************************************)
 EXTENDS Integers, Sequences, FiniteSets, TLC, Functions, FiniteSetsExt, SequencesExt, Json
 
 CONSTANTS
-  Mode,       \* "compare" | "pool" | "mean" | "mean2" | "rescale"
+  Mode,       \* "compare" | "pool" | "mean" | "mean2" | "rescale" | "partials"
   NC,         \* conditions behind a vector (whitened measures, boot and part masks)
   LEN,        \* entries of a vector (NC(NC-1)/2 unless only plain vectors are used)
   VecCat,     \* catalogue (sequence) of integer vectors of length LEN
@@ -65,6 +78,10 @@ CONSTANTS
   WECat,      \* mean: catalogue of per-entry weight matrices (>= 3 rows of length >= LEN)
   Factors,    \* rescale: integer scale factors
   Families,   \* rescale: subset of {"prop", "signed"}
+  ExpCat,     \* rescale: catalogue of per-RDM decimal exponents (the unit an RDM is measured in), length >= 3
+  ExpIds,     \* rescale: subset of 1..Len(ExpCat)
+  AllPCat,    \* partials: catalogue of explicit all_patterns lists (permutations of 1..NC)
+  AllPIds,    \* partials: subset of 0..Len(AllPCat); 0 = all_patterns=None (union in order of first appearance)
   EmitMod,    \* emit one terminal state in EmitMod ...
   EmitAligned \* ... but one in EmitAligned of the compare states whose masks are aligned (none / common)
 
@@ -308,15 +325,17 @@ Connected(M) == Reach(M, {1}, Len(M)) = DOMAIN M
 InitRescale ==
   \E sh \in Shapes, rot \in Rots, src \in MaskSrcs \ {"boot"} :
     LET n == sh[1]  base == CatVec(rot, 1) IN
-    \E fam \in Families :
+    \E fam \in Families, eid \in ExpIds :
     \E f \in (IF fam = "prop" THEN [1..n -> Factors] ELSE {[r \in 1..n |-> 0]}) :
       LET A == IF fam = "prop" THEN [r \in 1..n |-> [k \in 1..LEN |-> f[r] * base[k]]]
                ELSE [r \in 1..n |-> CatVec(rot, r)] IN
       /\ \/ /\ src = "free" /\ \E MA \in [1..n -> FreeMasks] :
-                 inp = [fam |-> fam, base |-> base, f |-> f, ma |-> MA, src |-> src, arg |-> <<>>, a |-> A]
+                 inp = [fam |-> fam, base |-> base, f |-> f, ma |-> MA, src |-> src, arg |-> <<>>, a |-> A,
+                        exp |-> [r \in 1..n |-> ExpCat[eid][r]]]
          \/ /\ src = "part" /\ \E PA \in [1..n -> PartSets] :
                  inp = [fam |-> fam, base |-> base, f |-> f, ma |-> [i \in 1..n |-> PartMask(PA[i])], src |-> src,
-                        arg |-> [i \in 1..n |-> SetToSortSeq(PA[i], <)], a |-> A]
+                        arg |-> [i \in 1..n |-> SetToSortSeq(PA[i], <)], a |-> A,
+                        exp |-> [r \in 1..n |-> ExpCat[eid][r]]]
       /\ \A r \in 1..n : Cardinality(Keep(LEN, inp.ma[r])) >= MinKeep
       /\ fam = "prop" => \A k \in 1..LEN : base[k] > 0
       \* an RDM without a non-zero entry cannot be scaled; nor can the consensus the iteration starts from
@@ -335,6 +354,39 @@ Rescale == /\ Mode = "rescale" /\ pc = "in"
                       shared |-> Cardinality({k \in 1..LEN : Cardinality({r \in DOMAIN inp.ma : k \notin inp.ma[r]}) >= 2})]
            /\ pc' = "done" /\ UNCHANGED inp
 
+(* ---------------- partials mode: from_partials as an embedding -------------- *)
+Tok(p, q) == IF p < q THEN 10 * p + q ELSE 10 * q + p            \* the value names its condition pair
+\* all arrangements (sequences without repetition) of at least two conditions
+Arrangements == UNION {{s \in [1..m -> 1..NC] : \A i, j \in 1..m : i # j => s[i] # s[j]} : m \in 2..NC}
+PairSeqOf(m) == SetToSortSeq({pq \in (1..m) \X (1..m) : pq[1] < pq[2]},
+                             LAMBDA x, y : x[1] < y[1] \/ (x[1] = y[1] /\ x[2] < y[2]))
+\* the condensed vector of a partial RDM that lists its patterns in the order ord
+PartialVec(ord) == LET ps == PairSeqOf(Len(ord)) IN [k \in 1..Len(ps) |-> Tok(ord[ps[k][1]], ord[ps[k][2]])]
+\* union of the pattern lists in order of first appearance (all_patterns=None)
+RECURSIVE ConcatAll(_)
+ConcatAll(ss) == IF ss = <<>> THEN <<>> ELSE Head(ss) \o ConcatAll(Tail(ss))
+FirstSeen(s) == LET pos == SelectSeq([k \in 1..Len(s) |-> k], LAMBDA k : \A j \in 1..(k - 1) : s[j] # s[k])
+                IN [k \in 1..Len(pos) |-> s[pos[k]]]
+InitPartials ==
+  \E sh \in Shapes, aid \in AllPIds :
+    \E ords \in [1..sh[1] -> Arrangements] :
+       inp = [ords |-> ords, allp |-> IF aid = 0 THEN <<>> ELSE AllPCat[aid],
+              parts |-> [r \in 1..sh[1] |-> PartialVec(ords[r])]]
+Embed == /\ Mode = "partials" /\ pc = "in"
+         /\ LET lst == IF inp.allp = <<>> THEN FirstSeen(ConcatAll(inp.ords)) ELSE inp.allp
+                ps == PairSeqOf(Len(lst))
+                has(r, c) == c \in Range(inp.ords[r]) IN
+            out' = [lst |-> lst,
+                    vecs |-> [r \in DOMAIN inp.ords |-> [k \in 1..Len(ps) |->
+                                IF has(r, lst[ps[k][1]]) /\ has(r, lst[ps[k][2]])
+                                THEN inp.parts[r][CHOOSE j \in 1..Len(inp.parts[r]) :
+                                        LET pj == PairSeqOf(Len(inp.ords[r]))[j] IN
+                                        {inp.ords[r][pj[1]], inp.ords[r][pj[2]]} = {lst[ps[k][1]], lst[ps[k][2]]}]
+                                ELSE 0]],
+                    miss |-> [r \in DOMAIN inp.ords |->
+                                SetToSortSeq({k \in 1..Len(ps) : ~(has(r, lst[ps[k][1]]) /\ has(r, lst[ps[k][2]]))}, <)]]
+         /\ pc' = "done" /\ UNCHANGED inp
+
 (* ---------------- behaviour ----------------------------------------------- *)
 Init == /\ pc = "in" /\ out = NoOut
         /\ CASE Mode = "compare" -> InitCompare
@@ -342,7 +394,8 @@ Init == /\ pc = "in" /\ out = NoOut
              [] Mode = "mean"    -> InitMean
              [] Mode = "mean2"   -> InitMean2
              [] Mode = "rescale" -> InitRescale
-Next == Parse \/ Misaligned \/ Measure \/ Pool \/ Mean \/ MeanFirst \/ MeanSecond \/ Rescale
+             [] Mode = "partials" -> InitPartials
+Next == Parse \/ Misaligned \/ Measure \/ Pool \/ Mean \/ MeanFirst \/ MeanSecond \/ Rescale \/ Embed
 Spec == Init /\ [][Next]_vars
 
 (* ---------------- theorems: compare --------------------------------------- *)
@@ -423,6 +476,26 @@ CommonScaleExists == (Mode = "rescale" /\ inp.fam = "prop") =>
 \* a connected family of at least two RDMs shares an entry
 ConnectedShares == (Mode = "rescale" /\ Done /\ out.conn /\ Len(inp.ma) >= 2) => out.shared >= 1
 
+(* ---------------- theorems: partials --------------------------------------- *)
+\* never misaligned: every value of the combined RDM names the pair of list entries it sits at, it is missing
+\* exactly when one of the two conditions is not among the patterns of that partial RDM, every dissimilarity of
+\* a partial RDM arrives exactly once, and the list holds every pattern once
+PartialsAssoc == (Mode = "partials" /\ Done) =>
+  LET ps == PairSeqOf(Len(out.lst)) IN
+  /\ Cardinality(Range(out.lst)) = Len(out.lst)
+  /\ UNION {Range(inp.ords[r]) : r \in DOMAIN inp.ords} \subseteq Range(out.lst)
+  /\ \A r \in DOMAIN inp.ords :
+       /\ \A k \in 1..Len(ps) :
+            IF k \in Range(out.miss[r])
+            THEN ~({out.lst[ps[k][1]], out.lst[ps[k][2]]} \subseteq Range(inp.ords[r]))
+            ELSE out.vecs[r][k] = Tok(out.lst[ps[k][1]], out.lst[ps[k][2]])
+       /\ Len(ps) - Len(out.miss[r]) = Len(inp.parts[r])
+\* all_patterns=None: the list is the union in order of first appearance
+PartialsListOrder == (Mode = "partials" /\ Done /\ inp.allp = <<>>) =>
+  /\ out.lst[1] = inp.ords[1][1]
+  /\ \A i, j \in 1..Len(inp.ords[1]) : i < j =>
+        (CHOOSE p \in DOMAIN out.lst : out.lst[p] = inp.ords[1][i]) < (CHOOSE p \in DOMAIN out.lst : out.lst[p] = inp.ords[1][j])
+
 (* ---------------- emission ------------------------------------------------ *)
 Pick(n) == n = 1 \/ RandomElement(1..n) = 1
 MaskSeqs(M) == [r \in DOMAIN M |-> SetToSortSeq(M[r], <)]
@@ -445,5 +518,8 @@ Emit == (Done /\ Pick(IF Mode = "compare" /\ Aligned(Cls) THEN EmitAligned ELSE 
                          mean |-> out.mean, mean2 |-> out.mean2]))
      [] Mode = "rescale" ->
           PrintT(ToJson([t |-> "resc", fam |-> inp.fam, neg |-> out.neg, anti |-> out.anti, base |-> inp.base, f |-> inp.f, src |-> inp.src, arg |-> inp.arg,
-                         a |-> inp.a, ma |-> MaskSeqs(inp.ma), conn |-> out.conn, shared |-> out.shared]))
+                         a |-> inp.a, exp |-> inp.exp, ma |-> MaskSeqs(inp.ma), conn |-> out.conn, shared |-> out.shared]))
+     [] Mode = "partials" ->
+          PrintT(ToJson([t |-> "partials", ords |-> inp.ords, allp |-> inp.allp, parts |-> inp.parts,
+                         lst |-> out.lst, vecs |-> out.vecs, miss |-> out.miss]))
 =============================================================================
